@@ -30,6 +30,9 @@ TraceNext ==
     \/ /\ l <= Len(Traces[tid])
        /\ Explain(Traces[tid][l])
        /\ l' = l + 1 /\ UNCHANGED tid
+    \/ /\ \E r \in Reqs : /\ \A j \in 1..Len(Traces[tid]) : Traces[tid][j].r # r      \* a request rejected before it reaches the
+                          /\ Early(r)                                                 \* lock leaves no event at all
+       /\ UNCHANGED <<tid, l>>
     \/ /\ l > Len(Traces[tid]) /\ Quiescent          \* whole trace explained and every request ended
        /\ UNCHANGED tvars
 
